@@ -20,7 +20,20 @@ import (
 	"io"
 	"os"
 	"path/filepath"
+	"strings"
+
+	"shanhu.io/g/errcode"
 )
+
+// inDir checks if p is dir itself or a path beneath dir.
+func inDir(dir, p string) bool {
+	rel, err := filepath.Rel(dir, p)
+	if err != nil {
+		return false
+	}
+	const up = ".."
+	return rel != up && !strings.HasPrefix(rel, up+string(filepath.Separator))
+}
 
 // UnzipDir unzips a zip file into a directory.
 // If the directory already exists, it removes all stuff in the directory
@@ -37,6 +50,11 @@ func UnzipDir(dir string, r *zip.Reader, clear bool) error {
 		mod := f.Mode()
 
 		name := filepath.Join(dir, f.Name)
+		if !inDir(dir, name) {
+			return errcode.InvalidArgf(
+				"zip entry %q is outside of the destination", f.Name,
+			)
+		}
 		if mod.IsDir() {
 			if err := os.MkdirAll(name, mod); err != nil {
 				return err
